@@ -239,7 +239,21 @@ fn jobs_for(prop: &str, rng: &mut Rng, case: &Case, input: &[u8], sp: &SpecRun, 
             budgets.push(rng.range(4, 5000) as usize);
             budgets.push(rng.range(1, 300) as usize);
             if halted {
-                budgets.extend_from_slice(&[1usize << 31, 1usize << 62, usize::MAX, usize::MAX - 1]);
+                budgets.extend_from_slice(&[1usize << 31, 1usize << 62, usize::MAX, usize::MAX - 1, (1usize << 32) + 2]);
+                // boundary budgets around powers of two (width-dependent arithmetic on the counter)
+                for _ in 0..5 {
+                    let k = *rng.pick(&[31u32, 32, 32, 33, 40, 48, 61, 62, 63]);
+                    let d = *rng.pick(&[0usize, 1, 2, 3, 5, 9]);
+                    let b = if rng.chance(1, 4) { (1usize << k).wrapping_sub(d + 1) } else { (1usize << k).wrapping_add(d) };
+                    if b >= (1usize << 31) {
+                        budgets.push(b);
+                    }
+                }
+            } else {
+                for _ in 0..2 {
+                    let k = *rng.pick(&[4u32, 8, 12, 16]);
+                    budgets.push((1usize << k) + *rng.pick(&[0usize, 1, 2, 3]));
+                }
             }
             let lv = [*rng.pick(&[0u32, 1]), *rng.pick(&[2u32, 3])];
             for b in [Backend::Inplace, Backend::IrInt, Backend::BcInt, Backend::Jit] {
